@@ -22,6 +22,7 @@ import copy
 import difflib
 import json
 import os
+import re
 
 
 class _Binder(ast.NodeVisitor):
@@ -160,13 +161,35 @@ def canon_lines(func: ast.AST, rename: bool = True) -> list[str]:
     return ast.unparse(f).splitlines()
 
 
+_VAR = re.compile(r"_v\d+")
+
+
+def _abstract(line: str) -> str:
+    return _VAR.sub("_v", line.strip())
+
+
 def hunks(a_lines: list[str], b_lines: list[str]):
-    sm = difflib.SequenceMatcher(None, a_lines, b_lines, autojunk=False)
+    """Differences between two canonical texts.  Lines are aligned on their *abstract* form (local
+    numbers erased), so that an engine-specific block that binds a few more locals in one copy does
+    not make every later line differ; on the aligned lines the numbering of locals must then be one
+    consistent bijection between the copies (a swapped pair of operands breaks it).  Hunks are
+    reported in abstract form."""
+    aa, bb = [_abstract(l) for l in a_lines], [_abstract(l) for l in b_lines]
+    sm = difflib.SequenceMatcher(None, aa, bb, autojunk=False)
     out = []
+    fwd, bwd = {}, {}
     for tag, i1, i2, j1, j2 in sm.get_opcodes():
         if tag == "equal":
+            for la, lb in zip(a_lines[i1:i2], b_lines[j1:j2]):
+                va, vb = _VAR.findall(la), _VAR.findall(lb)
+                clash = False
+                for x, y in zip(va, vb):
+                    if fwd.setdefault(x, y) != y or bwd.setdefault(y, x) != x:
+                        clash = True
+                if clash:
+                    out.append(("[binding] " + _abstract(la) + " :: " + ",".join(va), "[binding] " + _abstract(lb) + " :: " + ",".join(vb)))
             continue
-        out.append(("\n".join(l.strip() for l in a_lines[i1:i2]), "\n".join(l.strip() for l in b_lines[j1:j2])))
+        out.append(("\n".join(aa[i1:i2]), "\n".join(bb[j1:j2])))
     return out, sm.ratio()
 
 
@@ -214,4 +237,68 @@ def check_pairs(ctx, pairs, rule="TWIN.agree"):
                 False,
                 f"{len(new)} unconfirmed divergence(s); first: classic `{a[:160]}` vs expression engine `{b[:160]}` -- the copies implement one algorithm, so one of them is wrong",
             )
+    return n
+
+
+# --------------------------------------------------------------------------- loose twins
+_COMMON = None
+
+
+def common_table():
+    global _COMMON
+    if _COMMON is None:
+        p = os.path.join(os.path.dirname(os.path.abspath(__file__)), "rules", "twins_common.json")
+        with open(p) as f:
+            _COMMON = json.load(f)
+    return _COMMON
+
+
+def substantial(line: str) -> bool:
+    """A line that says something: long enough and containing a call, an operator or a comparison."""
+    l = line.strip()
+    return len(l) >= 24 and any(t in l for t in ("(", " if ", "==", "!=", " in ", " + ", " - ", " * ", " // ", "[")) and not l.startswith(("def ", "from ", "import ", "raise ", "warnings."))
+
+
+def abstract_lines(func) -> list[str]:
+    return [_abstract(l) for l in canon_lines(func)]
+
+
+def check_loose(ctx, pairs, rule="TWIN.shared-line"):
+    """Loose twins: two functions that share a core of statements but differ in plumbing too much for
+    a whole-function diff.  The statements that both copies contain today (abstract form, only
+    substantial ones) are frozen in twins_common.json; each of them must still be in both copies, or
+    have left both -- a line that only one copy still has means the copies diverged."""
+    tab = common_table()
+    n = 0
+    for ra, qa, rb, qb in pairs:
+        key = pair_key(ra, qa, rb, qb)
+        ma, mb = ctx.model.module(ra), ctx.model.module(rb)
+        if key not in tab:
+            raise_missing = f"loose twin {key} has no frozen common core"
+            ctx.ob(rule, f"{ra}::{qa}", key, None, raise_missing)
+            continue
+        if not ma.has(qa) or not mb.has(qb):
+            ctx.ob(rule, f"{ra}::{qa}", f"twin pair {key}", None, "twin vanished (re-confirm the pair table)")
+            continue
+        fa, fb = ma.get(qa), mb.get(qb)
+        la, lb = abstract_lines(fa), abstract_lines(fb)
+        ca = {}
+        for l in la:
+            ca[l] = ca.get(l, 0) + 1
+        cb = {}
+        for l in lb:
+            cb[l] = cb.get(l, 0) + 1
+        gone = []
+        for line in tab[key]:
+            ina, inb = ca.get(line, 0), cb.get(line, 0)
+            if (ina > 0) != (inb > 0):
+                gone.append((line, "classic" if ina else "expression engine"))
+        n += 1
+        ctx.ob(
+            rule,
+            fa,
+            f"{key}: the {len(tab[key])} statements shared by both copies are still shared",
+            not gone,
+            "" if not gone else f"{len(gone)} shared statement(s) now in one copy only; first: `{gone[0][0][:150]}` remains only in the {gone[0][1]} copy -- the copies implement one algorithm, so one of them changed meaning",
+        )
     return n
